@@ -347,13 +347,15 @@ def asks (tr : Trace) (h : Nat) (t : Int) (ty : Nat) (qu : Bool) (items : List I
 
 /-- the `k`-th opportunity (window `[lo, hi]`): the first is a QU question that is always sent; a later one is a QM
 question that is sent unless the host asked or heard the same QM question at most `dupQ` earlier with known answers
-among its own -/
+among its own.  For a *heard* question "its own" are the instances the host has received by the end of the window: the code
+compares when its own question is due (RFC 6762 §7.3), which may be up to `dupQ` after the question was heard — a heard question
+may list an instance the host learns in between (its own service, looped back) -/
 def K3opp (cfg : Cfg) (tr : Trace) (h : Nat) (ty : Nat) (first : Bool) (lo hi : Int) : Bool :=
   if first then
     (sends tr).any fun sd => sd.h == h && sd.dst.isNone && lo ≤ sd.t && sd.t ≤ hi && asks tr h sd.t ty true sd.items
   else
     ((sends tr).any fun sd => sd.h == h && sd.dst.isNone && lo - cfg.dupQ ≤ sd.t && sd.t ≤ hi && asks tr h sd.t ty false sd.items)
-    || ((dlvs tr).any fun e => e.h == h && e.mc && lo - cfg.dupQ ≤ e.t && e.t ≤ hi && asks tr h e.t ty false e.items)
+    || ((dlvs tr).any fun e => e.h == h && e.mc && lo - cfg.dupQ ≤ e.t && e.t ≤ hi && asks tr h hi ty false e.items)
 
 def K3opps (cfg : Cfg) (tr : Trace) (endT : Int) (h ty : Nat) (t : Int) : List Int → Bool → Bool
   | [], _ => true
@@ -369,12 +371,15 @@ def K3 (cfg : Cfg) (tr : Trace) (endT : Int) : Bool :=
 def svcsOf (tr : Trace) : List Svc := (regs tr).map (·.2)
 
 def answersTo (cfg : Cfg) (tr : Trace) (h : Nat) (a : Int) (src : Nat) (qu : Bool) (s : Svc) : Bool :=
-  (sends tr).any fun sd => sd.h == h && a - cfg.respBefore ≤ sd.t && sd.t ≤ a + cfg.respAfter && posFull s sd.items
+  (sends tr).any fun sd => sd.h == h && a - cfg.respBefore ≤ sd.t && sd.t ≤ a + cfg.respAfter && pos s sd.items
                             && (sd.dst.isNone || (qu && sd.dst == some src))
 
 /-- K4 (C03, C11, C12): a PTR question for type(`s`) that does not list `s`, processed by the owner while `s` is
-registered, is answered with PTR(`s`) + SRV, TXT, addresses within `[a - 1000, a + 1200]` by multicast (or, QU, by
-unicast to the asker).  The window opens 1 s *before* the arrival because the listener ignores a byte-identical datagram
+registered, is answered with PTR(`s`), TTL > 0, within `[a - 1000, a + 1200]` by multicast (or, QU, by unicast to the asker).
+The *datagram* need not be complete: a reply that exceeds one packet is split by `DNSOutgoing.packets()` — pointers first, SRV / TXT /
+addresses spilling into the next datagram — so "PTR + SRV, TXT, address in one datagram" (`posFull`) is not what correct code
+satisfies for large answers (observed on the unchanged tree with 3 services of 900-byte TXT); convergence only needs the pointer.
+The responder *model* does send the complete set in one message (`Bridge.fresh_sent` proves `posFull` of the message's items).  The window opens 1 s *before* the arrival because the listener ignores a byte-identical datagram
 that follows one it processed less than a second earlier (that one was answered). -/
 def K4 (cfg : Cfg) (tr : Trace) (endT : Int) : Bool :=
   (dlvs tr).all fun e => !(e.t + cfg.respAfter ≤ endT) || e.items.all fun it => match it with
@@ -430,40 +435,46 @@ def refreshOpp (tr : Trace) (h ty : Nat) (s : Svc) (a b : Int) : Bool :=
   ((sends tr).any fun sd => sd.h == h && sd.dst.isNone && a ≤ sd.t && sd.t ≤ b && asksWithout ty s sd.items)
   || ((dlvs tr).any fun e => e.h == h && e.mc && a ≤ e.t && e.t ≤ b && asksWithout ty s e.items)
 
-/-- host `h` processes no PTR(`s`) (of any TTL) at a time in `(t1, t2]` -/
-def noPtrBetween (tr : Trace) (h : Nat) (s : Svc) (t1 t2 : Int) : Bool :=
-  (dlvs tr).all fun e => !(e.h == h && (ptrOf s e.items).isSome && t1 < e.t && e.t ≤ t2)
+/-- the PTR(`s`) records (of any TTL) host `h` processes up to `t2`, in the order of processing -/
+def ptrDlvs (tr : Trace) (h : Nat) (s : Svc) (t2 : Int) : List DlvE :=
+  (dlvs tr).filter fun e => e.h == h && (ptrOf s e.items).isSome && e.t ≤ t2
+
+/-- `x` is the last PTR(`s`) record host `h` processes up to `t2` — in trace order: a record processed later in the same
+millisecond supersedes an earlier one (a time comparison alone could not tell which of the two the host holds) -/
+def lastPtrIs (tr : Trace) (h : Nat) (s : Svc) (t2 : Int) (x : DlvE) : Bool :=
+  (ptrDlvs tr h s t2).getLast? == some x
 
 /-- the two refresh windows for a PTR processed at `t` with lifetime `e` seconds by a host whose browser started at `tb`.
 If the browser had finished its start-up phase when the earliest possible schedule of the record's 75 % query came
-(`tb + qHi + 14 s + refreshEarly ≤ t + 75 % e`): around `t + 75 % e` and `t + 85 % e` (from `refreshEarly + dupQ` before — a
-refreshed record keeps a schedule within one `browserTime` of its new 75 % point, and a heard question suppresses — to `refreshWin`
-after).  Otherwise — the browser started later, or so shortly before that the 75 % point falls into its start-up phase, during
+(`tb + qHi + 14 s + refreshEarly + dupQ ≤ t + 75 % e`): around `t + 75 % e` and `t + 85 % e` (from `refreshEarly + 2·dupQ` before —
+a refreshed record keeps a schedule within one `browserTime` of its new 75 % point; a heard question suppresses; and the record the
+cache holds may be up to `dupQ` older than the delivery at `t`: the listener does not parse a datagram that is byte-identical to the
+one it parsed less than a second ago, e.g. the second and third announcement — to `refreshWin` after).  Otherwise — the browser started later, or so shortly before that the 75 % point falls into its start-up phase, during
 which the scheduler serves no refresh — its third and fourth start-up questions (K3's windows): by then the record is past half its
 life, stale, and is not listed. -/
 def refreshWindow (cfg : Cfg) (t e tb : Int) (second : Bool) : Int × Int :=
-  if tb + cfg.qHi + cfg.qOff.getD 3 0 + cfg.refreshEarly ≤ t + cfg.refresh1 * e then
+  if tb + cfg.qHi + cfg.qOff.getD 3 0 + cfg.refreshEarly + cfg.dupQ ≤ t + cfg.refresh1 * e then
     let due := t + (if second then cfg.refresh2 else cfg.refresh1) * e
-    (due - cfg.refreshEarly - cfg.dupQ, due + cfg.refreshWin)
+    (due - cfg.refreshEarly - 2 * cfg.dupQ, due + cfg.refreshWin)
   else
     let off := if second then cfg.qOff.getD 3 0 else cfg.qOff.getD 2 0
     (tb + cfg.qLo + off - cfg.dupQ, tb + cfg.qHi + off)
 
-def k3bAt (cfg : Cfg) (tr : Trace) (endT : Int) (h ty : Nat) (tb : Int) (t e : Int) (s : Svc) (second : Bool) : Bool :=
-  !((refreshWindow cfg t e tb second).2 ≤ endT && noPtrBetween tr h s t (refreshWindow cfg t e tb second).2)
-  || refreshOpp tr h ty s (refreshWindow cfg t e tb second).1 (refreshWindow cfg t e tb second).2
+def k3bAt (cfg : Cfg) (tr : Trace) (endT : Int) (h ty : Nat) (tb : Int) (x : DlvE) (e : Int) (s : Svc) (second : Bool) : Bool :=
+  !((refreshWindow cfg x.t e tb second).2 ≤ endT && lastPtrIs tr h s (refreshWindow cfg x.t e tb second).2 x)
+  || refreshOpp tr h ty s (refreshWindow cfg x.t e tb second).1 (refreshWindow cfg x.t e tb second).2
 
 /-- K3b (C10): a browser's host that processed PTR(`s`) with TTL τ > 0 at `t` and no PTR(`s`) since asks for the type again —
 not listing `s`, which is stale by then — in each of the two `refreshWindow`s, unless the record was refreshed or withdrawn
-by the end of that window -/
+by the end of that window (`lastPtrIs`: the record is still the last PTR(`s`) the host processed, in trace order) -/
 def K3b (cfg : Cfg) (tr : Trace) (endT : Int) : Bool :=
   (browses tr).all fun b => !neverClosed tr b.2.host || (dlvs tr).all fun x => !(x.h == b.2.host) ||
     (ptrSvcs x.items).all fun s => !(s.ty == b.2.ty && pos s x.items) ||
       match ptrOf s x.items with
       | none => true
       | some (ttl, _) =>
-        k3bAt cfg tr endT b.2.host b.2.ty b.1 x.t (effTtl cfg ttl / 1000) s false
-        && k3bAt cfg tr endT b.2.host b.2.ty b.1 x.t (effTtl cfg ttl / 1000) s true
+        k3bAt cfg tr endT b.2.host b.2.ty b.1 x (effTtl cfg ttl / 1000) s false
+        && k3bAt cfg tr endT b.2.host b.2.ty b.1 x (effTtl cfg ttl / 1000) s true
 
 /-- KF (a *theorem* from K3b, K4, K7 and the other contracts: `C07_fresh`; still monitored as a cross-check): on a browsing host, the PTR of a registered
 instance of the browsed type has not expired at the end of the window -/
